@@ -380,6 +380,8 @@ def check(case, ctx):
         if grc != 0:
             return o.disc('gcc rejects the generated text: ' + (gerr.split('error:')[1].split('\n')[0].strip() if 'error:' in gerr else 'exit %d' % grc)[:60])
         crc, cout, cerr = run([C2M, '-E', path])
+        if crc == -9 or grc == -9:
+            return o.disc('timeout (machine load): inconclusive')
     finally:
         os.unlink(path)
     deep = len(re.findall(r'F\d\([^()]*F\d\(', src)) > 0
